@@ -300,12 +300,17 @@ def addInterval (iv : DInterval) (cur : Int) : Int :=
       | .year => daysFromCivil (c.1 + 1) 1 1
     next * msPerDay
 
-/-- the step of the bounds-fill loop.  `aligned = false` is the code: `add_interval(current)`,
-whose calendar branch drops the time of day of `current` and with it the offset;
-`aligned = true` is what the reference does: step in the offset-free calendar and add the offset
-back -/
-def fillStep (iv : DInterval) (offset : Int) (aligned : Bool) (cur : Int) : Int :=
-  if aligned then addInterval iv (cur - offset) + offset else addInterval iv cur
+/-- `add_interval(current, offset, interval)`, the step of the bounds-fill loop (since 0b763bf):
+bucket starts are calendar boundaries shifted by the offset, so the calendar step is taken in
+the offset-free calendar and the offset is added back -/
+def fillStep (iv : DInterval) (offset : Int) (cur : Int) : Int :=
+  match iv with
+  | .fixed step => cur + step
+  | .calendar u => addInterval (.calendar u) (cur - offset) + offset
+
+/-- the step before 0b763bf: `add_interval(current, interval)`, whose calendar branch drops the
+time of day of `current` and with it the offset (only used by `Core/AggsLegacy`) -/
+def legacyFillStep (iv : DInterval) (cur : Int) : Int := addInterval iv cur
 
 /-- the `while current <= end` loop of `DateHistogramCollector::finish` -/
 def fillFrom (next : Int → Int) (cur hi : Int) : Nat → List Int
@@ -330,15 +335,9 @@ inductive BSpec (φ κ : Type) where
   | hist (f : φ) (interval offset : Rat) (minDoc : Nat) (ext hard : Option (Rat × Rat))
       (missing : Option Rat)
   | dhist (f : φ) (iv : DInterval) (offset : Int) (minDoc : Nat) (ext hard : Option (Int × Int))
-      (missing : Option Int) (ideal : Bool)
+      (missing : Option Int)
   | filter (p : Pred φ κ)
   | composite (srcs : List (CSrc φ)) (size : Nat) (after : Option (List (Part κ)))
-
-/-- the request as the reference semantics reads it (date_histogram: the bounds fill keeps the
-offset) -/
-def BSpec.ideal {φ κ : Type} : BSpec φ κ → BSpec φ κ
-  | .dhist f iv offset minDoc ext hard missing _ => .dhist f iv offset minDoc ext hard missing true
-  | b => b
 
 mutual
 /-- aggregation tree (children are positional: the code keeps them in a `BTreeMap` by name and
@@ -411,7 +410,7 @@ def keysOf (b : BSpec φ κ) (d : Doc φ κ) : List (Key κ) :=
         match hard with
         | some (lo, hi) => !(decide (v < lo) || decide (hi < v))
         | none => true)).map (fun v => Key.num (histId interval offset v))
-  | .dhist f iv offset _ _ hard missing _ =>
+  | .dhist f iv offset _ _ hard missing =>
     (((numVals f (missing.map (fun (m : Int) => (m : Rat))) d).map truncToInt).filter (fun v =>
         match hard with
         | some (lo, hi) => !(decide (v < lo) || decide (hi < v))
@@ -432,7 +431,7 @@ def extraKeys (b : BSpec φ κ) : List (Key κ) :=
     match ext.or hard with
     | some (lo, hi) => (idRange (histId interval offset lo) (histId interval offset hi)).map Key.num
     | none => []
-  | .dhist _ iv offset _ ext hard _ ideal =>
+  | .dhist _ iv offset _ ext hard _ =>
     match ext.or hard with
     | some (lo, hi) =>
       match dateBucket false iv offset lo, dateBucket false iv offset hi with
@@ -440,7 +439,7 @@ def extraKeys (b : BSpec φ κ) : List (Key κ) :=
         let start := if b < a then b else a
         let stop := if b < a then a else b
         let minStep : Int := match iv with | .fixed step => step | .calendar _ => msPerDay
-        (fillFrom (fillStep iv offset ideal) start stop (((stop - start) / minStep).toNat + 2)).map Key.num
+        (fillFrom (fillStep iv offset) start stop (((stop - start) / minStep).toNat + 2)).map Key.num
       | _, _ => []
     | none => []
   | .filter _ => [Key.unit]
@@ -509,7 +508,7 @@ def finalPost (b : BSpec φ κ) (bs : Buckets κ) : Buckets κ × Option (Key κ
     (truncate size (sortBy rareLt
       (bs.filter (fun x => decide (0 < x.2.1) && decide (x.2.1 ≤ maxDoc)))), none)
   | .hist _ _ _ minDoc _ _ _ => (bs.filter (fun x => decide (minDoc ≤ x.2.1)), none)
-  | .dhist _ _ _ minDoc _ _ _ _ => (bs.filter (fun x => decide (minDoc ≤ x.2.1)), none)
+  | .dhist _ _ _ minDoc _ _ _ => (bs.filter (fun x => decide (minDoc ≤ x.2.1)), none)
   | .composite _ size after =>
     let c := afterFilter after bs
     if size < c.length then
@@ -672,7 +671,7 @@ def agg : Agg φ κ → List (Doc φ κ) → Node κ
   | .topHits size fromN sort, docs =>
     .hits docs.length (((sortBy (hitLt (sort.map (·.2))) (docs.map (mkHit sort))).drop fromN).take size)
   | .bucket b subs, docs =>
-    let r := specPost b (rawBuckets b.ideal (aggs subs) docs)
+    let r := specPost b (rawBuckets b (aggs subs) docs)
     .buckets r.1 r.2
 def aggs : Aggs φ κ → List (Doc φ κ) → List (Node κ)
   | .nil, _ => []
